@@ -4846,3 +4846,16 @@ M('C14', 'key-init-state-attribute-not-copied', PGP, KEYINIT,
 M('C14', 'uid-init-rank-attribute-not-copied', PGP, "        super(PGPUID, self).__init__()\n        self._uid = None\n        self._signatures = SorteDeque()\n",
   "        super(PGPUID, self).__init__()\n        self._uid = None\n        self._signatures = SorteDeque()\n        self._pinned = False\n", 'C14.4',
   more=[(PGP, "    def __lt__(self, other):  # pragma: no cover\n        if self.is_uid == other.is_uid:", "    def pin(self, value=True):\n        self._pinned = bool(value)\n\n    def __lt__(self, other):  # pragma: no cover\n        if self._pinned != other._pinned:\n            return self._pinned\n        if self.is_uid == other.is_uid:")])
+# CANON(DOC) on a path that decided "no LF in DOC" is DOC itself (held-out twin C02-ref13); nothing weaker than that guard
+_CAN = "            _data += re.subn(br'\\r?\\n', b'\\r\\n', subject)[0]\n"
+_FAST = "            if %s:\n                _data += subject\n\n            else:\n                _data += re.subn(br'\\r?\\n', b'\\r\\n', subject)[0]\n"
+for _p in ('C01', 'C02', 'C05', 'C11'):
+    T(_p, 'twin-canon-fast-path-no-lf', PGP, _CAN, _FAST % "isinstance(subject, (bytes, bytearray)) and b'\\n' not in subject")
+    T(_p, 'twin-canon-fast-path-lf-present-first', PGP, _CAN, "            if b'\\n' in subject:\n                _data += re.subn(br'\\r?\\n', b'\\r\\n', subject)[0]\n            else:\n                _data += subject\n")
+for _p, _r in (('C01', 'C01.1'), ('C02', 'C02.1'), ('C11', 'C11.4')):
+    M(_p, 'canon-fast-path-guard-cr-only', PGP, _CAN, _FAST % "isinstance(subject, (bytes, bytearray)) and b'\\r' not in subject", _r)
+    M(_p, 'canon-fast-path-guard-length', PGP, _CAN, _FAST % "len(subject) < 64", _r)
+    M(_p, 'canon-fast-path-guard-type-alone', PGP, _CAN, _FAST % "isinstance(subject, bytearray)", _r)
+    M(_p, 'canon-fast-path-guard-lf-in-prefix-only', PGP, _CAN, _FAST % "b'\\n' not in subject[:64]", _r)
+    M(_p, 'canon-fast-path-guard-inverted', PGP, _CAN, _FAST % "b'\\n' in subject", _r)
+    M(_p, 'canon-fast-path-guard-or-type', PGP, _CAN, _FAST % "isinstance(subject, bytearray) or b'\\n' not in subject", _r)
